@@ -44,11 +44,11 @@ def _classify(op, a, b):
 PROP = {
     "thm": ["Umya.Thm.C02", "Umya.Thm.C02Bytes", "Umya.Thm.C02Sheet", "Umya.Thm.C02Book", "Umya.Thm.C02Gen", "Umya.Thm.C02SheetBytes", "Umya.Thm.C02Pkg"],
     "harness": "c02",
-    "level": "translation_validation",
+    "level": "proof",
     "stateful": True,
     "disagreement_is_oracle": True,
     "classify_disagreement": _classify,
-    "level_text": "Translation validation by an independent reader executed in Lean, plus theorems for the unbounded pieces; the central clause about CELLS is now a theorem about the writer model, tied to the files on every run. "
+    "level_text": "Proof for the modelled package: for a workbook of n plain sheets (any n; cells of the modelled fragment, rows, merged ranges, hyperlinks, defined names, hidden sheets) the chain writer models -> characters -> element trees -> package -> independent decoder is theorems end to end: C02_bytes_parse / C02_sheet_bytes_decode (the XML 1.0 reader returns the tree that was written), C02_sheet_decodes (no diagnostics = ascending, in range, indexes inside tables, child order, r:id resolves), C02_content_types_cover, C02_package_rels_resolve, C02_rel_ids_unique, C02_sheet_ids_unique, C02_package_no_diagnostics and C02_book_decodes (decode pkg = the sheet list, sheet bodies, defined names and active tab of the workbook, no diagnostics). The models are tied to the code on every run (bytes re-rendered and compared, cell / sheet / package bridges). What the models do not cover (opaque bodies, drawings, charts, comments, tables, raw parts: listed in level_note and partial_clauses) stays translation validation by the same independent reader executed in Lean on every part of every written package. "
                   "Every part of every package the "
                   "library writes (generated workbooks with cells of all kinds, hyperlinks, merges, defined names, comments, validations, conditional formats, "
                   "protection, hidden sheets, special-character names; re-saved corpus files; standard and light compression) is lexed by an XML 1.0 reader and decoded "
